@@ -32,7 +32,7 @@ RULE = ('10 of 16 cases: one machine of a predefined class (all 12, round-robin;
         'cases with one object listed twice; histories of 4-16 operations: add_model of one model (registered = '
         '"twice", never added, removed; initial None / a registered state / [Machine, LockedMachine only] an '
         'unregistered state) or ONE add_model call with a list of 2-4 models in which objects may repeat, '
-        'remove_model (registered), add_states, add_transition, remove_transition (35% of the well-formed cases, which then contain no remove_model: all transitions of a trigger, or those from one source / to one destination; a trigger that was emptied is usually declared again later, with models added before and after), trigger (event method or trigger(name); registered, '
+        'remove_model (registered), add_states (one state, or ONE call with a list of 2-3 new states), add_transition, remove_transition (35% of the well-formed cases, which then contain no remove_model: all transitions of a trigger, or those from one source / to one destination; a trigger that was emptied is usually declared again later, with models added before and after), trigger (event method or trigger(name); registered, '
         'removed and never-added objects; known, not-yet-added and unknown events), dispatch. Callbacks are given by '
         'name so that each object has its own recorder. Sync classes: condition values by position/callback and one '
         'raising callback position in 15% of the cases; async classes: non-raising, at most one condition per '
@@ -66,6 +66,9 @@ ASSUMPTIONS = ['remove_model is only called for registered models (an unregister
                'as keys of _transition_queue_dict and raises KeyError on every trigger — reported); in graph classes, '
                'after a copy, stale helpers of removed models are not called and removed models are not re-added (the '
                'copy has no graph for them)',
+               'async dispatch with a raising model is not modelled (gather keeps the other triggers running); the extra check '
+               'dispatch_propagates_exceptions asserts on every class and queue mode that the exception leaves dispatch, that no '
+               'model gets the event twice and that the models before the raising one get it once',
                'state features: Timeout is not modelled (C17); its per-model timers and Retry\'s per-model counters are '
                'checked on the implementation by the extra check features_interleaved_equals_solo (every model\'s outcome '
                'in an interleaved history = its solo run; a model in a timeout state owns a live timer)',
@@ -150,7 +153,16 @@ def gen(rng, i, tier):
         if ps and (not ready or rng.random() < 0.5):
             s = ps.pop()
             added.add(s)
-            cfg.append(['state', s, sdefs[s]])
+            if ps and rng.random() < 0.6:
+                # ONE add_states call with a list of two or three new states
+                group = [[s, sdefs[s]]]
+                while ps and len(group) < 3 and (len(group) < 2 or rng.random() < 0.5):
+                    s2 = ps.pop()
+                    added.add(s2)
+                    group.append([s2, sdefs[s2]])
+                cfg.append(['states', group])
+            else:
+                cfg.append(['state', s, sdefs[s]])
         else:
             e, t = pt.pop(ready[0])
             cfg.append(['trans', e, t])
@@ -193,6 +205,8 @@ def gen(rng, i, tier):
             ci += 1
             if o[0] == 'state':
                 known_states.add(o[1])
+            elif o[0] == 'states':
+                known_states.update(x[0] for x in o[1])
             else:
                 known_events.add(o[1])
                 cur.setdefault(o[1], []).append(o[2])
@@ -484,7 +498,8 @@ def enc(case):
         return [1, bool(case['hsm']), ed(case['d0']), ed(case['d1']), case['calls']]
     return [0, class_flags(case['cls']) + [qcode(case['queued'])], flat.enc_machine(case['machine']), case['init'],
             flat.enc_env(case['env']), case['ctor_models'], [[e, flat.enc_trans(t)] for e, t in case['ctor_trans']],
-            case['nuniv'], opt(case['self_id']), [enc_op(o) for o in case['history']]]
+            case['nuniv'], opt(case['self_id']),
+            [x for o in case['history'] for x in ([[2, q[0], enc_sdef(q[1])] for q in o[1]] if o[0] == 'states' else [enc_op(o)])]]
 
 
 def _removes_registered_only(case):
@@ -494,6 +509,8 @@ def _removes_registered_only(case):
     for o in case['history']:
         if o[0] == 'state':
             states.add(o[1])
+        elif o[0] == 'states':
+            states.update(q[0] for q in o[1])
         elif o[0] == 'add_model':
             if o[1] not in reg and (o[2] is None or o[2] in states):
                 reg.append(o[1])
@@ -563,9 +580,15 @@ def canon(case, obs):
         return [[2 if m == case['self_id'] else (1 if m in fal else 0), w[1][m][0]] for m in w[0]]
     if obs[0] == 1 and len(obs) == 3 and not (obs[2] and isinstance(obs[2][0], dict)):
         steps = []
-        for blocks, res, w in obs[2]:
-            cw = _canon_world(w)
-            steps.append([[it for b in blocks for it in b[1]], res, cw, 1, markup_of(cw)])
+        raw = list(obs[2])
+        for o in case['history']:
+            n = len(o[1]) if o[0] == 'states' else 1      # add_states([s1, s2, ..]): the model adds them one by one
+            chunk, raw = raw[:n], raw[n:]
+            if not chunk:
+                break
+            res = next((r for _, r, _ in chunk if r[0] == 1), chunk[-1][1])
+            cw = _canon_world(chunk[-1][2])
+            steps.append([[it for blocks, _, _ in chunk for b in blocks for it in b[1]], res, cw, 1, markup_of(cw)])
         last = steps[-1][2] if steps else _canon_world(obs[1])
         return [1, _canon_world(obs[1]), steps, rebuilt_of(last)]
     if obs[0] == 1:
@@ -789,6 +812,10 @@ def _impl_multi(case):
                 r = machine.remove_model(objs[o[1]])
             elif k == 'state':
                 r = machine.add_states(state_kw(o[1], o[2]))
+                if self_id is not None:
+                    install(machine)
+            elif k == 'states':
+                r = machine.add_states([state_kw(q[0], q[1]) for q in o[1]])
                 if self_id is not None:
                     install(machine)
             elif k == 'remove_trans':
@@ -1097,7 +1124,7 @@ def oracle(case, obs):
                 for j in set(o[1]):
                     if j not in pm and (j not in models or (o[2] is not None and per[j][0] != [o[2]])):
                         return 'late_model: new model %d of a list add is not registered in its own initial state' % j
-        if k in ('state', 'trans', 'dispatch', 'add_model', 'add_models', 'remove_model', 'trigger'):
+        if k in ('state', 'states', 'trans', 'dispatch', 'add_model', 'add_models', 'remove_model', 'trigger'):
             for j in removed:
                 if (k in ('add_model', 'trigger') and o[1] == j) or (k == 'add_models' and j in o[1]):
                     continue
@@ -1113,6 +1140,12 @@ def oracle(case, obs):
             for j in o[1]:
                 if j in models:
                     removed.discard(j)
+        if k == 'states' and res == [0, 2]:
+            for q in o[1]:
+                for j in models:
+                    if [4, q[0]] not in per[j][1]:
+                        return ('late_model: registered model %d did not receive is_s%d of an add_states call with '
+                                'several states' % (j, q[0]))
         if k in ('state', 'trans') and res == [0, 2]:
             # late models: every registered model has the helper, like every other registered model
             tabs = [per[j][1] for j in models]
@@ -1153,7 +1186,7 @@ def nontrivial(case, obs):
     for o, step in zip(case['history'], obs[2]):
         if o[0] in ('add_model', 'add_models', 'remove_model'):
             member_change = True
-        if o[0] in ('state', 'trans') and member_change and step[2][0]:
+        if o[0] in ('state', 'states', 'trans') and member_change and step[2][0]:
             return True
         if o[0] == 'dispatch' and len(set(it[2] for it in step[0])) >= 2:
             return True
@@ -1250,7 +1283,7 @@ def shrink_candidates(case):
         return
     h = case['history']
     for i in range(len(h) - 1, -1, -1):
-        if h[i][0] in ('state',):
+        if h[i][0] in ('state', 'states'):
             continue
         c = copy.deepcopy(case)
         del c['history'][i]
@@ -1400,6 +1433,50 @@ def _feature_probe(rng, cname):
     return True, None
 
 
+class DispObj(object):
+    def __init__(self, boom=None):
+        self.calls = 0
+        self.boom = boom
+
+    def hit(self, *args, **kwargs):
+        self.calls += 1
+        if self.boom is not None:
+            raise self.boom
+
+
+def _dispatch_raises_probe(cname, queued, variant, raiser):
+    """dispatch where the event raises for exactly one model (an invalid trigger that is not ignored / a raising
+    callback): the exception propagates out of dispatch — it is never turned into a result — and no model receives
+    the event twice; the models registered before the raising one receive it exactly once.  (Machine.dispatch stops
+    at the raising model; the asyncio classes have started the later models' triggers already.)"""
+    tr = flat._import_transitions()
+    cls = flat.get_class(cname)
+    models = [DispObj() for _ in range(3)]
+    if variant == 'callback':
+        models[raiser].boom = flat.UserExc(7)
+    m = cls(model=models, states=['A', 'B', 'C'], initial='A', queued=queued, auto_transitions=False,
+            transitions=[dict(trigger='go', source='A', dest='B', before='hit'),
+                         dict(trigger='park', source='A', dest='C')], **flat.class_kwargs(cname))
+    if variant == 'invalid':
+        _run(models[raiser].park())                     # 'go' is not valid from C
+    want = tr.MachineError if variant == 'invalid' else flat.UserExc
+    try:
+        r = _run(m.dispatch('go'))
+        got = 'returned %r' % (r,)
+    except BaseException as ex:  # noqa
+        got = type(ex)
+    d = dict(cls=cname, queued=queued, variant=variant, raiser=raiser, outcome=getattr(got, '__name__', got),
+             calls=[x.calls for x in models], states=[x.state for x in models])
+    ok = got is want or (isinstance(got, type) and issubclass(got, want))
+    for j, x in enumerate(models):
+        exp_calls = 0 if (variant == 'invalid' and j == raiser) else 1
+        if x.calls > 1 or (j < raiser and x.calls != exp_calls):
+            ok = False
+        if j < raiser and x.state != 'B':
+            ok = False
+    return ok, d
+
+
 def extra_checks(tier, seed):
     gc.collect()
     gc.freeze()         # the driver holds all cases and observations: keep them out of the probes' collections
@@ -1442,6 +1519,25 @@ def _extra_checks(tier, seed):
             fbad = dict(kind='oracle', check='features_interleaved_equals_solo', observed=d,
                         failing_clause='state features (Retry, Timeout): a model\'s outcome in an interleaved history '
                                        'differs from its solo run of the same calls (per-model bookkeeping leaked)')
+    dbad, dn = None, 0
+    for cname in CLASSES:
+        for queued in [False, True] + (['model'] if 'Async' in cname else []):
+            for variant in ('invalid', 'callback'):
+                for raiser in (0, 1, 2):
+                    dn += 1
+                    try:
+                        okd, d = _dispatch_raises_probe(cname, queued, variant, raiser)
+                    except BaseException as ex:  # noqa
+                        okd, d = False, dict(cls=cname, queued=queued, variant=variant, raiser=raiser,
+                                             error='%s: %s' % (type(ex).__name__, ex))
+                    if not okd and dbad is None:
+                        dbad = dict(kind='oracle', check='dispatch_propagates_exceptions', observed=d,
+                                    failing_clause='dispatch: the event raises for one model (invalid trigger / raising '
+                                                   'callback) but dispatch does not raise it, or a model received the event '
+                                                   'twice, or a model registered before the raising one did not receive it')
+    out.append(('dispatch_propagates_exceptions', dbad is None,
+                dict(configurations=dn, classes=len(CLASSES), variants='invalid trigger, raising callback; raiser first/middle/last',
+                     all_ok=dbad is None), dbad or {}))
     out.append(('features_interleaved_equals_solo', fbad is None,
                 dict(probes=n_probe, features='add_state_features(Timeout, Retry)', models='2-3', all_equal=fbad is None),
                 fbad or {}))
